@@ -1,3 +1,615 @@
-def pair_rule(run, f, rid): pass
-def linear_rule(run, f, rid): pass
-def self_steal_rule(run, f, rid): pass
+"""Rule instances on the two work-steal queues (shared by C01, C03, C04, C05, C06)."""
+from analysis.facts import norm
+from analysis.cfg import Cfg
+from analysis.flow import DefUse, ReachingDefs, backward, find_calls, callee_is, callee_ends, op_local, op_const, switch_info
+from analysis.linear import Linear
+from analysis.atomics import AtomicModel, is_atomic_method, receiver_key
+from analysis.table import describe_val
+from rules.common import need
+
+OWS = "common::ordered_work_steal::OrderedWorkStealQueue"
+OLQ = "common::ordered_work_steal::OrderedLocalQueue"
+WS = "common::work_steal::WorkStealQueue"
+LQ = "common::work_steal::LocalQueue"
+
+PUSH_FNS = {  # fn -> name of the by-value item parameter
+    OWS + "::push_with_priority": "item", OLQ + "::push_with_priority": "item", OLQ + "::push_to_global": "item",
+    WS + "::push": "item", LQ + "::push": "item", OWS + "::push": "item", OLQ + "::push": "item",
+}
+POP_FNS = [OWS + "::pop", OLQ + "::pop", OLQ + "::pop_local", WS + "::pop", LQ + "::pop"]
+
+REPO_PUSH = set(PUSH_FNS)
+REPO_POP = set(POP_FNS)
+
+
+def sink(c, t):
+    if c == "crossbeam_deque::Injector::push":
+        return "consume"
+    if c == "st3::fifo::Worker::push":
+        return "maybe-return"
+    if c in REPO_PUSH:
+        return "consume"
+    return None
+
+
+def source(c, t):
+    return c in ("st3::fifo::Worker::pop", "crossbeam_deque::Injector::steal") or c in REPO_POP
+
+
+def linear_rule(run, f, rid):
+    run.rule(rid, "by-value item is moved into exactly one sink on every path of each push fn; a popped item is returned or re-pushed, never dropped", floor=10, template="T1/T5 (P3 linear walker)")
+    for fn, pname in sorted(PUSH_FNS.items()):
+        b = need(run, rid, f, fn)
+        if b is None:
+            continue
+        item = [l for l in range(1, b.argc + 1) if b.name_of(l) == pname]
+        if not item:
+            run.fail(rid, fn + "/item-param", b.loc(), "push function has no by-value parameter named `%s`" % pname)
+            continue
+        lw = Linear(b, item, source, sink, ret_is_sink=False)
+        lw.run()
+        run.count("paths_or_states", lw.visited)
+        bad = list(lw.events)
+        for (bid, holders, consumed) in lw.exits:
+            if consumed != 1:
+                bad.append(("count", bid, "a path reaches return having handed the item to %s sinks" % ("no" if consumed == 0 else "two or more")))
+        if bad:
+            kinds = sorted({e[0] for e in bad})
+            run.fail(rid, fn + "/item", b.loc(), "item is not linear in %s: %s" % (fn.rsplit("::", 1)[1], "; ".join(e[2] for e in bad[:3])), detail={"kinds": kinds})
+        else:
+            run.ok(rid, fn + "/item", {"exits": len(lw.exits), "states": lw.visited})
+    for fn in POP_FNS:
+        b = need(run, rid, f, fn)
+        if b is None:
+            continue
+        lw = Linear(b, [], source, sink, ret_is_sink=True, transparent=lambda c, t: False)
+        lw.run()
+        run.count("paths_or_states", lw.visited)
+        if lw.events:
+            run.fail(rid, fn + "/popped", b.loc(), "a popped item can be lost in %s: %s" % (fn.rsplit("::", 1)[1], "; ".join(e[2] for e in lw.events[:3])), detail={"kinds": sorted({e[0] for e in lw.events})})
+        else:
+            run.ok(rid, fn + "/popped", {"exits": len(lw.exits), "states": lw.visited})
+
+
+def pair_rule(run, f, rid):
+    """Every Injector::push is followed by exactly one +1 on that queue's len, every Steal::Success by exactly one -1;
+    no other site changes the shared len."""
+    run.rule(rid, "shared len bookkeeping: +1 after every Injector::push, -1 on every Steal::Success, no other writer", floor=5, template="T1/T9")
+    am = AtomicModel(f)
+    for adt, pushfn, popfn in ((OWS, OWS + "::push_with_priority", OWS + "::pop"), (WS, WS + "::push", WS + "::pop")):
+        key = (adt, "len")
+        # writers of the shared len
+        writers = {}
+        for body in f.bodies:
+            du = None
+            for bid, t in body.calls():
+                c = norm(t.get("callee") or "")
+                if c.startswith("std::sync::atomic::Atomic::") and c.rsplit("::", 1)[1] not in ("load", "new"):
+                    du = du or DefUse(body)
+                    if receiver_key(body, du, t["args"][0]) == key:
+                        writers.setdefault(body.npath, []).append((bid, t, c.rsplit("::", 1)[1]))
+        extra = set(writers) - {pushfn, popfn}
+        if extra:
+            run.fail(rid, adt + "/len-writers", "core/src/common", "shared len of %s is written outside push/pop: %s" % (adt, sorted(extra)))
+        else:
+            run.ok(rid, adt + "/len-writers", sorted(writers))
+        # push: Injector::push then fetch_add(1) on all paths, once
+        b = need(run, rid, f, pushfn)
+        if b is not None:
+            cfg = Cfg(b)
+            du = DefUse(b)
+            pushes = find_calls(b, callee_is("crossbeam_deque::Injector::push"))
+            incs = [(bid, t) for (bid, t, m) in writers.get(pushfn, []) if m == "fetch_add" and op_const(t["args"][1]) == 1]
+            okc = len(pushes) == 1 and len(incs) == 1 and len(writers.get(pushfn, [])) == 1
+            if okc:
+                okp, _ = cfg.must_pass(cfg.after(pushes[0][0]), [incs[0][0]])
+                okc = okp and not cfg.in_cycle(incs[0][0]) and cfg.dominates(pushes[0][0], incs[0][0])
+            if okc:
+                run.ok(rid, pushfn + "/inc", "Injector::push -> len.fetch_add(1) on every path, once")
+            else:
+                run.fail(rid, pushfn + "/inc", b.loc(), "after Injector::push the shared len must be incremented by exactly 1 on every path (pushes=%d, +1 sites=%d, writers=%d)" % (len(pushes), len(incs), len(writers.get(pushfn, []))))
+        # pop: Success arm -> exactly one decrement; no decrement elsewhere
+        b = need(run, rid, f, popfn)
+        if b is not None:
+            cfg = Cfg(b)
+            du = DefUse(b)
+            steals = find_calls(b, callee_is("crossbeam_deque::Injector::steal"))
+            decs = writers.get(popfn, [])
+            ok = len(steals) == 1 and len(decs) == 1 and decs[0][2] in ("fetch_sub", "fetch_update")
+            why = "steal sites=%d, len writers=%d" % (len(steals), len(decs))
+            if ok:
+                sb = cfg.after(steals[0][0])[0]
+                # find the switch on the steal result
+                arm = None
+                for x in sorted(cfg.reachable({sb})):
+                    if b.blocks[x]["term"]["k"] == "switch":
+                        si = switch_info(b, du, x)
+                        if si["kind"] == "discr" and si["place"]["l"] == steals[0][1]["dest"]["l"]:
+                            arm = si["arms"].get("Success")
+                            other = [bb for n, bb in si["arms"].items() if n != "Success"]
+                            break
+                if arm is None:
+                    ok, why = False, "no match on the Steal result"
+                else:
+                    okp, _ = cfg.must_pass([arm], [decs[0][0]])
+                    # the decrement must not be reachable from the other arms without a new Success
+                    leak = any(decs[0][0] in cfg.reachable({o}, avoid={steals[0][0]}) for o in other)
+                    ok = okp and not leak and cfg.dominates(arm, decs[0][0])
+                    why = "Success arm reaches the decrement on all paths: %s; decrement reachable from Empty/Retry: %s" % (okp, leak)
+                    if ok and decs[0][2] == "fetch_update":
+                        cl = [c for c in f.closures_of(b)]
+                        amt = None
+                        for c in cl:
+                            for (_x, tt) in c.calls():
+                                if norm(tt.get("callee") or "").endswith("saturating_sub") or norm(tt.get("callee") or "").endswith("checked_sub"):
+                                    amt = op_const(tt["args"][1])
+                        if amt != 1:
+                            ok, why = False, "fetch_update closure does not subtract the constant 1"
+                    elif ok and decs[0][2] == "fetch_sub" and op_const(decs[0][1]["args"][1]) != 1:
+                        ok, why = False, "fetch_sub amount is not 1"
+            if ok:
+                run.ok(rid, popfn + "/dec", "Steal::Success -> len -= 1 on every path, once; not on Empty/Retry")
+            else:
+                run.fail(rid, popfn + "/dec", b.loc(), "Steal::Success must decrement the shared len by exactly 1 (%s)" % why)
+
+
+def self_steal_rule(run, f, rid):
+    pass
+
+
+# ---------------- C05 ----------------
+
+def _iter_facts(b):
+    calls = [norm(t.get("callee") or "") for (_x, t) in b.calls()]
+    return {
+        "skip_iter": any(c in ("crossbeam_skiplist::SkipMap::iter", "<&'a crossbeam_skiplist::SkipMap as std::iter::IntoIterator>::into_iter") for c in calls),
+        "rev": any(c in ("std::iter::Iterator::rev", "<std::iter::Rev as std::iter::Iterator>::next", "std::iter::DoubleEndedIterator::next_back", "<crossbeam_skiplist::map::Iter as std::iter::DoubleEndedIterator>::next_back") or c.endswith("::next_back") or c.endswith("::pop_back") or c.endswith("::back") for c in calls),
+        "next": [x for (x, t) in b.calls() if norm(t.get("callee") or "") in ("<crossbeam_skiplist::map::Iter as std::iter::Iterator>::next", "<std::iter::Rev as std::iter::Iterator>::next")],
+    }
+
+
+def ascending_rule(run, f, rid):
+    run.rule(rid, "pops scan the priority map in ascending key order and return at the first bucket that yields an item", floor=2, template="T5/T1")
+    for fn, inner in ((OLQ + "::pop_local", "st3::fifo::Worker::pop"), (OWS + "::pop", "crossbeam_deque::Injector::steal")):
+        b = need(run, rid, f, fn)
+        if b is None:
+            continue
+        cfg = Cfg(b)
+        du = DefUse(b)
+        it = _iter_facts(b)
+        inner_calls = find_calls(b, callee_is(inner))
+        why = []
+        if not it["skip_iter"] or len(it["next"]) != 1:
+            why.append("does not iterate the SkipMap with a single forward iterator")
+        if it["rev"]:
+            why.append("iterates in reverse (rev/next_back): lowest priority would be served first")
+        if len(inner_calls) != 1:
+            why.append("expected exactly one bucket pop site, found %d" % len(inner_calls))
+        if not why:
+            nb = it["next"][0]
+            ib, itc = inner_calls[0]
+            # bucket pop operates on the entry yielded by this iteration
+            sl = backward(b, itc["args"][0], du, at=(ib, "term"))
+            if not any(x == nb for (x, _t) in sl.calls):
+                why.append("the bucket popped is not the entry yielded by the iterator")
+            # success arm returns without going back to next()
+            arm = None
+            for x in sorted(cfg.reachable(cfg.after(ib))):
+                if b.blocks[x]["term"]["k"] == "switch":
+                    si = switch_info(b, du, x)
+                    if si["kind"] == "discr" and si["place"]["l"] == itc["dest"]["l"]:
+                        arm = si["arms"].get("Some") or si["arms"].get("Success")
+                        break
+            if arm is None:
+                why.append("no match on the bucket pop result")
+            else:
+                r = cfg.reachable({arm})
+                if nb in r or not (set(cfg.returns) & r):
+                    why.append("a successful bucket pop does not return immediately (the scan continues to later priorities)")
+                # and the value returned on that arm is the popped one
+                lw = Linear(b, [], lambda c, t: c == inner, lambda c, t: None)
+                lw.run()
+                if lw.events:
+                    why.append("popped value is not the one returned: " + lw.events[0][2])
+        if why:
+            run.fail(rid, fn + "/scan", b.loc(), "; ".join(why))
+        else:
+            run.ok(rid, fn + "/scan", "forward SkipMap iterator, return at first hit")
+
+
+def _root_entry(b, du, op, callee):
+    """The `entry` local on which Entry::key / Entry::value was called to obtain op (None if not found)."""
+    sl = backward(b, op, du, through_calls="all")
+    roots = set()
+    for (bid, t) in sl.calls:
+        if norm(t.get("callee") or "") == callee:
+            s2 = backward(b, t["args"][0], du, through_calls="none")
+            roots |= {x for (x, tt) in s2.calls if norm(tt.get("callee") or "").endswith("Iterator>::next")}
+    return roots
+
+
+def key_rule(run, f, rid):
+    run.rule(rid, "every inter-queue move keeps the item's priority key", floor=4, template="T5")
+    # push_to_global: shared.push_with_priority(*entry.key(), entry.value().pop())
+    b = need(run, rid, f, OLQ + "::push_to_global")
+    if b is not None:
+        du = DefUse(b)
+        moved = []
+        for (bid, t) in find_calls(b, callee_is(OWS + "::push_with_priority")):
+            ksl = backward(b, t["args"][1], du, at=(bid, "term"), stop_call=lambda c, tt: c == "crossbeam_skiplist::map::Entry::key")
+            isl = backward(b, t["args"][2], du, at=(bid, "term"))
+            from_pop = any(norm(tt.get("callee") or "") == "st3::fifo::Worker::pop" for (_x, tt) in isl.calls)
+            if not from_pop:
+                # the caller's own item: key must be the caller's own priority parameter
+                if ksl.params and all(b.name_of(p) == "priority" for p in ksl.params) and not ksl.calls:
+                    run.ok(rid, "push_to_global/own-item", "own item filed under the priority parameter")
+                else:
+                    run.fail(rid, "push_to_global/own-item", b.loc(t["line"]), "the caller's item is pushed to the shared queue under a key that is not the `priority` parameter")
+                continue
+            kroot = _root_entry(b, du, t["args"][1], "crossbeam_skiplist::map::Entry::key")
+            iroot = _root_entry(b, du, t["args"][2], "crossbeam_skiplist::map::Entry::value")
+            pure = not ksl.binops() and not [c for c in ksl.consts if "v" in c]
+            moved.append(t)
+            if kroot and kroot == iroot and pure:
+                run.ok(rid, "push_to_global/moved-item", "key = *entry.key() of the entry whose worker yielded the item")
+            else:
+                run.fail(rid, "push_to_global/moved-item", b.loc(t["line"]), "an item moved to the shared queue is filed under a key that is not the key of the bucket it came from (key entry %s, item entry %s, arithmetic on key: %s)" % (sorted(kroot), sorted(iroot), not pure))
+        if not moved:
+            run.fail(rid, "push_to_global/moved-item", b.loc(), "no shared.push_with_priority of a locally popped item found")
+    # steal branch of pop: get_or_insert_with(*entry.key()) where entry is the victim entry being stolen from
+    b = need(run, rid, f, OLQ + "::pop")
+    if b is not None:
+        du = DefUse(b)
+        st = find_calls(b, callee_is("st3::fifo::Stealer::steal"))
+        gi = find_calls(b, callee_is("crossbeam_skiplist::SkipMap::get_or_insert_with"))
+        ok, why = False, "steal site or destination bucket lookup missing"
+        if len(st) == 1 and len(gi) == 1:
+            (sb, stt), (gb, gt) = st[0], gi[0]
+            kroot = _root_entry(b, du, gt["args"][1], "crossbeam_skiplist::map::Entry::key")
+            vroot = _root_entry(b, du, stt["args"][0], "crossbeam_skiplist::map::Entry::value")
+            ksl = backward(b, gt["args"][1], du, at=(gb, "term"), stop_call=lambda c, tt: c == "crossbeam_skiplist::map::Entry::key")
+            pure = not ksl.binops() and not [c for c in ksl.consts if "v" in c]
+            # destination worker is the value of the entry returned by that lookup
+            dsl = backward(b, stt["args"][1], du, at=(sb, "term"))
+            dest_ok = any(x == gb for (x, _t) in dsl.calls)
+            ok = bool(kroot) and kroot == vroot and pure and dest_ok
+            why = "key entry %s, victim entry %s, arithmetic on key %s, destination from that lookup %s" % (sorted(kroot), sorted(vroot), not pure, dest_ok)
+        if ok:
+            run.ok(rid, "pop/steal-key", "stolen items are filed under *entry.key() of the victim bucket")
+        else:
+            run.fail(rid, "pop/steal-key", b.loc(), "stolen items must be filed under the victim bucket's key (%s)" % why)
+    # push_with_priority files under `priority`
+    for fn, sinkc in ((OLQ + "::push_with_priority", "st3::fifo::Worker::push"), (OWS + "::push_with_priority", "crossbeam_deque::Injector::push")):
+        b = need(run, rid, f, fn)
+        if b is None:
+            continue
+        du = DefUse(b)
+        gi = find_calls(b, callee_is("crossbeam_skiplist::SkipMap::get_or_insert_with"))
+        pu = find_calls(b, callee_is(sinkc))
+        ok = False
+        if len(gi) == 1 and len(pu) == 1:
+            ksl = backward(b, gi[0][1]["args"][1], du, at=(gi[0][0], "term"), through_calls="pass")
+            bsl = backward(b, pu[0][1]["args"][0], du, at=(pu[0][0], "term"))
+            ok = {b.name_of(p) for p in ksl.params} == {"priority"} and not ksl.binops() and not ksl.calls and any(x == gi[0][0] for (x, _t) in bsl.calls)
+        if ok:
+            run.ok(rid, fn + "/key", "bucket = get_or_insert_with(priority)")
+        else:
+            run.fail(rid, fn + "/key", b.loc(), "the item must be pushed into the bucket looked up with the unmodified `priority` parameter")
+    # push(item) uses item.priority().unwrap_or(DEFAULT_PRECEDENCE)
+    for fn in (OLQ + "::push", OWS + "::push"):
+        b = need(run, rid, f, fn)
+        if b is None:
+            continue
+        du = DefUse(b)
+        pw = find_calls(b, callee_ends("::push_with_priority"))
+        ok = False
+        if len(pw) == 1:
+            ksl = backward(b, pw[0][1]["args"][1], du, at=(pw[0][0], "term"))
+            cs = {norm(t.get("orig") or "") for (_x, t) in ksl.calls}
+            ok = "common::ordered_work_steal::Ordered::priority" in cs and not ksl.binops()
+            dflt = [c for c in ksl.consts if c.get("v") is not None]
+            ok = ok and all(c["v"] == "0" for c in dflt)
+        if ok:
+            run.ok(rid, fn + "/own-priority", "item.priority().unwrap_or(0)")
+        else:
+            run.fail(rid, fn + "/own-priority", b.loc(), "push(item) must file the item under item.priority() (default 0) without arithmetic")
+
+
+def evict_rule(run, f, rid):
+    run.rule(rid, "overflow evicts the lowest-priority buckets first (reverse iteration in push_to_global)", floor=1, template="T5")
+    b = need(run, rid, f, OLQ + "::push_to_global")
+    if b is None:
+        return
+    du = DefUse(b)
+    pops = find_calls(b, callee_is("st3::fifo::Worker::pop"))
+    ok = False
+    for (pb, pt) in pops:
+        sl = backward(b, pt["args"][0], du, at=(pb, "term"))
+        nx = [norm(t.get("callee") or "") for (_x, t) in sl.calls]
+        if "<std::iter::Rev as std::iter::Iterator>::next" in nx or any(c.endswith("::next_back") for c in nx):
+            ok = True
+    if ok and pops:
+        run.ok(rid, "push_to_global/reverse", "evicted items come from a reversed SkipMap iterator")
+    else:
+        run.fail(rid, "push_to_global/reverse", b.loc(), "items moved to the shared queue on overflow are not taken from the lowest-priority end (no reversed iteration feeds Worker::pop)")
+
+
+def bucket_type_rule(run, f, rid):
+    run.rule(rid, "buckets are FIFO containers (st3::fifo::Worker, crossbeam Injector)", floor=2, template="type fact")
+    for adt, fld, want in ((OWS, "shared_queue", "crossbeam_deque::Injector<"), (OWS, "local_queues", "st3::fifo::Worker<"), (WS, "shared_queue", "crossbeam_deque::Injector<"), (WS, "local_queues", "st3::fifo::Worker<")):
+        a = f.nadts.get(adt)
+        ty = None
+        if a:
+            for v in a["variants"]:
+                for fd in v["fields"]:
+                    if fd["name"] == fld:
+                        ty = fd["ty"]
+        if ty and want in ty and "lifo" not in ty:
+            run.ok(rid, "%s.%s" % (adt, fld), ty)
+        else:
+            run.fail(rid, "%s.%s" % (adt, fld), adt, "bucket type of %s.%s is %s, expected a FIFO %s" % (adt, fld, ty, want))
+
+
+def source_rule(run, f, rid):
+    run.rule(rid, "Ordered::priority of tasks and coroutines returns the priority they were created with", floor=2, template="T5")
+    for fn in ("<co_pool::task::Task as common::ordered_work_steal::Ordered>::priority", "<coroutine::korosensei::Coroutine as common::ordered_work_steal::Ordered>::priority"):
+        b = need(run, rid, f, fn)
+        if b is None:
+            continue
+        du = DefUse(b)
+        sl = backward(b, 0, du)
+        if sl.fields == {"priority"} and not sl.binops() and not sl.calls and not [c for c in sl.consts if "v" in c]:
+            run.ok(rid, fn, "returns self.priority")
+        else:
+            run.fail(rid, fn, b.loc(), "Ordered::priority must return the stored priority field unchanged (fields read: %s, arithmetic: %s)" % (sorted(sl.fields), bool(sl.binops())))
+
+
+# ---------------- C06 ----------------
+
+def tick_rule(run, f, rid):
+    run.rule(rid, "every k-th pop (k<=61) consults the shared queue before the local one and returns its item", floor=4, template="T2/T3")
+    for fn, shared_pop, local_pops in ((LQ + "::pop", WS + "::pop", ("st3::fifo::Worker::pop",)), (OLQ + "::pop", OWS + "::pop", (OLQ + "::pop_local",))):
+        b = need(run, rid, f, fn)
+        if b is None:
+            continue
+        cfg = Cfg(b)
+        du = DefUse(b)
+        ticks = find_calls(b, callee_ends("::tick"))
+        mult = find_calls(b, callee_is("u32::is_multiple_of"))
+        why = []
+        if len(ticks) != 1 or not all(cfg.dominates(ticks[0][0], r) for r in cfg.returns):
+            why.append("tick() is not called exactly once before every return")
+        k = None
+        if len(mult) != 1:
+            why.append("no single is_multiple_of test on the tick")
+        else:
+            mb, mt = mult[0]
+            k = op_const(mt["args"][1])
+            sl = backward(b, mt["args"][0], du, at=(mb, "term"))
+            if not any(x == ticks[0][0] for (x, _t) in sl.calls) if ticks else True:
+                why.append("the periodic test is not on the value returned by tick()")
+            if k is None or not (1 <= k <= 61):
+                why.append("the period %r is not a constant in 1..=61" % (k,))
+        if not why:
+            # true edge of the switch on is_multiple_of result
+            mb, mt = mult[0]
+            sw = None
+            for x in sorted(cfg.reachable(cfg.after(mb))):
+                tt = b.blocks[x]["term"]
+                if tt["k"] == "switch" and op_local(tt["discr"]) == mt["dest"]["l"]:
+                    sw = x
+                    break
+            if sw is None:
+                why.append("result of is_multiple_of is not branched on")
+            else:
+                tt = b.blocks[sw]["term"]
+                true_bb = tt["otherwise"] if all(int(v) == 0 for v, _ in tt["targets"]) else [bb for v, bb in tt["targets"] if int(v) == 1][0]
+                sp = [x for (x, t) in find_calls(b, callee_is(shared_pop)) if cfg.dominates(true_bb, x)]
+                lp = [x for (x, t) in find_calls(b, callee_is(*local_pops))]
+                if len(sp) != 1:
+                    why.append("the periodic branch does not call %s (found %d calls)" % (shared_pop.split("::", 2)[-1], len(sp)))
+                else:
+                    r = cfg.reachable({true_bb}, avoid={sp[0]})
+                    if any(x in r for x in lp) or (set(cfg.returns) & r):
+                        why.append("on the periodic branch the local queue can be popped (or the function can return) before the shared queue is consulted")
+                    # Some arm returns that value without another pop
+                    spt = b.blocks[sp[0]]["term"]
+                    arm = None
+                    for x in sorted(cfg.reachable(cfg.after(sp[0]))):
+                        if b.blocks[x]["term"]["k"] == "switch":
+                            si = switch_info(b, du, x)
+                            if si["kind"] == "discr" and si["place"]["l"] == spt["dest"]["l"]:
+                                arm = si["arms"].get("Some")
+                                break
+                    if arm is None:
+                        why.append("result of the shared pop is not matched")
+                    else:
+                        r2 = cfg.reachable({arm})
+                        if any(x in r2 for x in lp) or any(x in r2 for (x, _t) in find_calls(b, callee_is(shared_pop))):
+                            why.append("an item obtained from the shared queue on the periodic branch is not returned at once")
+        if why:
+            run.fail(rid, fn + "/tick", b.loc(), "; ".join(why))
+        else:
+            run.ok(rid, fn + "/tick", {"period": k})
+    # tick(): +1 per call, wrap returns 0
+    for fn, adt in ((LQ + "::tick", LQ), (OLQ + "::tick", OLQ)):
+        b = need(run, rid, f, fn)
+        if b is None:
+            continue
+        du = DefUse(b)
+        fa = [(x, t) for (x, t) in b.calls() if is_atomic_method(t, "fetch_add")]
+        ok = len(fa) == 1 and op_const(fa[0][1]["args"][1]) == 1 and receiver_key(b, du, fa[0][1]["args"][0]) == (adt, "tick") and not Cfg(b).in_cycle(fa[0][0])
+        sl = backward(b, 0, du)
+        consts = sorted({c["v"] for c in sl.consts if "v" in c and c.get("ty") == "u32"})
+        ok = ok and any(x == fa[0][0] for (x, _t) in sl.calls) and set(consts) <= {"0", "1", "4294967295"}
+        if ok:
+            run.ok(rid, fn, "tick = fetch_add(1)+1, wraps to 0")
+        else:
+            run.fail(rid, fn, b.loc(), "tick() must advance the counter by exactly 1 per call and return the new count (0 on wrap); constants seen %s" % consts)
+
+
+def fallback_rule(run, f, rid):
+    run.rule(rid, "a local miss never reports empty without consulting siblings' result or the shared queue", floor=2, template="T1")
+    for fn, shared_pop, local_pops in ((LQ + "::pop", WS + "::pop", ("st3::fifo::Worker::pop",)), (OLQ + "::pop", OWS + "::pop", (OLQ + "::pop_local",))):
+        b = need(run, rid, f, fn)
+        if b is None:
+            continue
+        cfg = Cfg(b)
+        du = DefUse(b)
+        lp = find_calls(b, callee_is(*local_pops))
+        sp = find_calls(b, callee_is(shared_pop))
+        if not lp or not sp:
+            run.fail(rid, fn + "/fallback", b.loc(), "local pop or shared pop call missing")
+            continue
+        # first local pop = the one that dominates the others / is not dominated by try_lock
+        tl = find_calls(b, callee_ends("::try_lock"))
+        first = [x for (x, t) in lp if not any(cfg.dominates(l, x) for (l, _t) in tl)]
+        why = []
+        if len(first) != 1:
+            why.append("cannot identify the first local pop")
+        else:
+            fb = first[0]
+            ft = b.blocks[fb]["term"]
+            arm_none = None
+            for x in sorted(cfg.reachable(cfg.after(fb))):
+                if b.blocks[x]["term"]["k"] == "switch":
+                    si = switch_info(b, du, x)
+                    if si["kind"] == "discr" and si["place"]["l"] == ft["dest"]["l"]:
+                        arm_none = si["arms"].get("None")
+                        break
+            if arm_none is None:
+                why.append("result of the local pop is not matched")
+            else:
+                through = [x for (x, t) in sp if x in cfg.reachable({arm_none})] + [x for (x, t) in lp if x != fb and x in cfg.reachable({arm_none})]
+                okp, wit = cfg.must_pass([arm_none], through)
+                if not okp:
+                    why.append("after a local miss the function can return without popping the shared queue (and without a successful steal)")
+                # the final shared pop's result is the function result
+                finals = [x for (x, t) in sp if t["dest"]["l"] == 0 and x in cfg.reachable({arm_none})]
+                if not finals:
+                    why.append("no shared pop whose result is returned directly on the miss path")
+                # a successful steal returns the local pop
+                st = find_calls(b, callee_is("st3::fifo::Stealer::steal"))
+                if len(st) != 1:
+                    why.append("expected one steal site")
+                else:
+                    after_steal_local = [x for (x, t) in lp if cfg.dominates(st[0][0], x)]
+                    if not after_steal_local:
+                        why.append("a successful steal is not followed by a local pop")
+                # release_lock on every path after try_lock succeeded
+                rl = [x for (x, t) in find_calls(b, callee_ends("::release_lock"))]
+                for (l, lt) in tl:
+                    sw = None
+                    for x in sorted(cfg.reachable(cfg.after(l))):
+                        tt = b.blocks[x]["term"]
+                        if tt["k"] == "switch" and op_local(tt["discr"]) == lt["dest"]["l"]:
+                            sw = x
+                            break
+                    if sw is not None:
+                        tt = b.blocks[sw]["term"]
+                        true_bb = tt["otherwise"] if all(int(v) == 0 for v, _ in tt["targets"]) else [bb for v, bb in tt["targets"] if int(v) == 1][0]
+                        okr, _ = cfg.must_pass([true_bb], rl)
+                        if not okr:
+                            why.append("the steal lock is not released on every path (later pops would never steal again)")
+        if why:
+            run.fail(rid, fn + "/fallback", b.loc(), "; ".join(why))
+        else:
+            run.ok(rid, fn + "/fallback", "miss -> steal (then local pop) or shared.pop(); lock released on all paths")
+
+
+def sweep_rule(run, f, rid):
+    run.rule(rid, "the steal sweep visits every sibling: index = (start + i) % num for i in 0..num", floor=2, template="T5")
+    for fn in (LQ + "::pop", OLQ + "::pop"):
+        b = need(run, rid, f, fn)
+        if b is None:
+            continue
+        du = DefUse(b)
+        g = find_calls(b, callee_is("std::collections::VecDeque::get"))
+        ok, why = False, "no VecDeque::get on the sibling list"
+        if len(g) == 1:
+            gb, gt = g[0]
+            sl = backward(b, gt["args"][1], du, at=(gb, "term"))
+            cs = {norm(t.get("callee") or "") for (_x, t) in sl.calls}
+            ops = set(sl.binops())
+            ok = ("Rem" in ops) and (("Add" in ops) or ("AddWithOverflow" in ops)) and "std::collections::VecDeque::len" in cs and "<std::ops::Range as std::iter::Iterator>::next" in cs and "rand::RngExt::random_range" in cs and not ({"Sub", "SubWithOverflow", "Mul", "MulWithOverflow", "Div", "Shr", "Shl", "BitAnd"} & ops)
+            why = "ops %s, calls %s" % (sorted(ops), sorted(c.rsplit('::', 1)[1] for c in cs))
+            # the range is 0..num with num = len()
+            rng = [t for (_x, t) in sl.calls if norm(t.get("callee") or "") == "<std::ops::Range as std::iter::Iterator>::next"]
+        if ok:
+            run.ok(rid, fn + "/sweep", "(start + i) % len over 0..len")
+        else:
+            run.fail(rid, fn + "/sweep", b.loc(), "sibling index must be (start + i) %% num over i in 0..num (%s)" % why)
+
+
+def len_reset_rule(run, f, rid):
+    """After my fix for F2: an owner that finds all its workers empty must forget a stale count (siblings steal without updating it)."""
+    run.rule(rid, "pop_local resets the local count when every bucket is empty (siblings steal without updating it; can_steal() reads it)", floor=1, template="T1")
+    b = need(run, rid, f, OLQ + "::pop_local")
+    if b is None:
+        return
+    cfg = Cfg(b)
+    du = DefUse(b)
+    # paths that return None: those not passing the Some arm of Worker::pop
+    pops = find_calls(b, callee_is("st3::fifo::Worker::pop"))
+    stores = [(x, t) for (x, t) in b.calls() if is_atomic_method(t, "store") and receiver_key(b, du, t["args"][0]) == (OLQ, "len") and op_const(t["args"][1]) == 0]
+    arms = []
+    for (pb, pt) in pops:
+        for x in sorted(cfg.reachable(cfg.after(pb))):
+            if b.blocks[x]["term"]["k"] == "switch":
+                si = switch_info(b, du, x)
+                if si["kind"] == "discr" and si["place"]["l"] == pt["dest"]["l"]:
+                    if si["arms"].get("Some") is not None:
+                        arms.append(si["arms"]["Some"])
+                    break
+    # every path entry -> return that avoids all Some arms must pass a store(0)
+    r = cfg.reachable({0}, avoid=set(arms) | {x for (x, _t) in stores})
+    if pops and arms and not (set(cfg.returns) & r):
+        run.ok(rid, "pop_local/reset", "None path passes len.store(0)")
+    else:
+        run.fail(rid, "pop_local/reset", b.loc(), "pop_local can report an empty local queue without resetting a stale count: can_steal() then stays false and sibling work is never taken")
+
+
+def steal_api_rule(run, f, rid):
+    """st3 offers steal (moves the oldest items, order kept) and steal_and_pop (hands out the NEWEST of the batch).
+    FIFO among equals survives a steal only through the former followed by an ordinary local pop."""
+    run.rule(rid, "stealing uses st3 Stealer::steal (order preserving) and the stolen items are popped through the ordinary local pop", floor=2, template="T9 (who-may-call)")
+    for fn, lp in ((OLQ + "::pop", OLQ + "::pop_local"), (LQ + "::pop", "st3::fifo::Worker::pop")):
+        b = need(run, rid, f, fn)
+        if b is None:
+            continue
+        bad = [norm(t.get("callee") or "") for (_x, t) in b.calls() if norm(t.get("callee") or "").startswith("st3::") and norm(t.get("callee") or "").endswith("steal_and_pop")]
+        st = find_calls(b, callee_is("st3::fifo::Stealer::steal"))
+        cfg = Cfg(b)
+        after = [x for (x, t) in find_calls(b, callee_is(lp)) if st and cfg.dominates(st[0][0], x)]
+        if bad or len(st) != 1 or not after:
+            run.fail(rid, fn + "/steal", b.loc(), "steal path must be Stealer::steal followed by the ordinary local pop (steal_and_pop hands out the newest stolen item first): %s" % (bad or "steal sites=%d, local pop after steal=%d" % (len(st), len(after))))
+        else:
+            run.ok(rid, fn + "/steal", "Stealer::steal then local pop")
+
+
+def bucket_capacity_rule(run, f, rid):
+    """Every per-priority bucket of a local queue is created with the queue's full local capacity: the ordering clause
+    'no more tasks queued than the local capacity' presumes a bucket never overflows before the queue as a whole is full."""
+    run.rule(rid, "every local bucket (st3 Worker) is created with the shared local_capacity, unmodified", floor=3, template="T5")
+    n = 0
+    for b in f.bodies:
+        if b.kind == "Promoted" or not b.npath.startswith(("common::ordered_work_steal::", "common::work_steal::")):
+            continue
+        du = None
+        for (bid, t) in b.calls():
+            if norm(t.get("callee") or "") == "st3::fifo::Worker::new":
+                du = du or DefUse(b)
+                sl = backward(b, t["args"][0], du, at=(bid, "term"))
+                n += 1
+                srcs = set(sl.fields) | {b.name_of(p) for p in sl.params if b.name_of(p) not in ("self",)}
+                if b.kind == "Closure":
+                    srcs |= {b.upvars[int(x)] for x in sl.fields if x.isdigit() and int(x) in b.upvars}
+                pure = not sl.binops() and not [c for (_x, c) in sl.calls if not norm(c.get("callee") or "").endswith(("::deref", "::clone"))] and not [c for c in sl.consts if "v" in c]
+                # closures read the capture `self.shared.local_capacity`
+                ok = pure and "local_capacity" in srcs
+                key = "%s/Worker::new" % b.npath
+                if ok:
+                    run.ok(rid, key, "capacity = local_capacity")
+                else:
+                    run.fail(rid, key, b.loc(t["line"]), "a local bucket is created with a capacity that is not the queue's local_capacity (sources %s, arithmetic/calls on it: %s): a smaller bucket overflows to the shared queue before the local queue is full and reorders priorities" % (sorted(srcs), not pure))
+    return n
